@@ -16,6 +16,15 @@ def run(tier):
     run_harness("total", cases, trace, timeout=6000, env={"TOTAL_TIMEOUT": "30" if tier == "quick" else "90"})
     v = tlc_validate("Trace_Totality", "Trace_Totality.cfg", trace, wd, shards=1, boundary=("call",))
     c.add_validation(v, cases_path=cases, behaviours=mc["replays"], boundary=("call",))
+    # specification growth beyond the listed properties: what Log::from_proxy writes (Log.tla); panics count, content is drift
+    lcases = os.path.join(wd, "log.cases.ndjson")
+    mcl = tlc_mc("MC_Log", "MC_Log.cfg", wd, workers=4, cases_out=lcases, coverage=False)
+    c.add_mc(mcl)
+    ltrace = os.path.join(wd, "log.trace.ndjson")
+    run_harness("log", lcases, ltrace)
+    vl = tlc_validate("Trace_Log", "Trace_Log.cfg", ltrace, wd, shards=4, boundary=("log",))
+    c.add_validation(vl, cases_path=lcases, behaviours=mcl["replays"], boundary=("log",))
+    c.extra["log_entries_checked_against_Log_tla"] = mcl["replays"]
     c.assumptions = ["totality over the hostile value classes enumerated in Totality.tla (single dimensions and listed pairs) and over everything the other checks drive "
                      "(every driver records a panic as an event; the C null patterns are in C18); arbitrary byte-level mutation of JSON / regex / HTML is not this technique",
                      "the harness is built optimised (opt-level 2, as shipped) with overflow checks and debug assertions on; calls run in a child process with the default 8 MiB stack "
